@@ -60,6 +60,8 @@ structure Interp (α : Type) where
   const : Nat → α
   ofLit : Str → Option α
   dflt : α
+  /-- `{:?}` of a value, as used by `DeepEx::unparse` -/
+  dbg : α → Str := fun _ => []
 
 /-- Composition of unary operators: `UnaryOp::apply` iterates `funcs_to_be_composed` in reverse,
     i.e. the first element of the list is applied last. -/
